@@ -266,6 +266,8 @@ class RawField(Field):
         order = self.ORDER if hasattr(self, "ORDER") else self.order
         if fmt=='c' and isinstance(value,bytes):
             fmt = 's'
+        if self.count > 0 and isinstance(value, (tuple, list)):
+            return struct.pack(order + pfx + fmt, *value)
         res = struct.pack(order + pfx + fmt, value)
         return res
 
